@@ -104,3 +104,12 @@ PROPS['C17'] = dict(
     assumptions=['the hook script receives os.Environ() of the client plus the entries of envEntry/dumpScriptConf and nothing else named PSA_DHCPC_*'],
     timeout={'quick': 600, 'thorough': 3600},
 )
+
+PROPS['C09'] = _srv(209, extra_tests=['TestC09NoAlias', 'TestC09Burst', 'TestC09ConcurrentDB'],
+    env={'VERIF_MONITORS': '201+205+206'}, monitor_tags={201, 205, 206}, race=True,
+    rule=SERVER_RULE + ' PLUS: no-alias run (3000/60000 decoded messages compared after the receive buffer is overwritten); real-time bursts through '
+         'the real Run loop (12/200 scenarios: 2-5 unbound clients DISCOVER at the same instant, with and without a common suggestion, pools larger/smaller '
+         'than the burst, then all REQUEST at once: one OFFER/ACK each, pairwise distinct); 40/1000 rounds of 3-12 goroutines calling OfferIP/UpdateClient/'
+         'Lookup concurrently; the same tests under the Go race detector (thorough, and a subset in quick).')
+PROPS['C09']['trusted'] = PROPS['C09']['trusted'] + ['the Go race detector (go1.26.8 -race) reports races only on the schedules it happens to see',
+                                                      'real-time bursts depend on the scheduler: margins of 0.7 s per client are left for each 0.6 s probe']
